@@ -116,7 +116,14 @@ def run(ctx):
     p = OptimizationProblem(ds)
     user_jac = t.flag(0.75, "user_derivatives")
     p.objective = MDOFunction(fns["f"].func, "f", jac=fns["f"].jac if user_jac else None)
-    p.add_constraint(MDOFunction(fns["g"].func, "g", jac=fns["g"].jac if user_jac else None), constraint_type="ineq")
+    maximize = t.flag(0.2, "maximize")
+    if maximize:
+        p.minimize_objective = False  # the problem then works on (and records) -f
+    g_positive = t.flag(0.3, "constraint_positive")
+    g_offset = t.pick([0.0, 0.5, -1.25], "constraint_value")
+    # standard form recorded by the problem: g - value <= 0, negated for a "positive" constraint
+    p.add_constraint(MDOFunction(fns["g"].func, "g", jac=fns["g"].jac if user_jac else None), value=g_offset, constraint_type="ineq", positive=g_positive)
+    std = {"f": (-1.0 if maximize else 1.0, 0.0), "g": (-1.0 if g_positive else 1.0, g_offset), "lin": (1.0, 0.0)}
     with_lin = t.flag(0.5, "linear_function")
     if with_lin:
         p.add_observable(MDOLinearFunction(lin_coef, "lin", value_at_zero=array([0.75])))
@@ -133,9 +140,11 @@ def run(ctx):
     ctx.event("cfg", canon(cfg))
     sig = f"norm={int(normalize)} db={int(use_db)} round={int(round_ints)} int={int(with_int)} userjac={int(user_jac)}"
     names = ["f", "g"] + (["lin"] if with_lin else [])
+    cfg.update(maximize=maximize, constraint_positive=g_positive, constraint_value=g_offset)
     pfun = {"f": p.objective, "g": p.constraints[0]}
     if with_lin:
         pfun["lin"] = p.observables[0]
+    dbn = {k: v.name for k, v in pfun.items()}  # names under which the standardised functions are recorded
 
     # --- points (in physical coordinates) -------------------------------------------------------
     n_points = t.randint(1, 5, "n_points")
@@ -188,12 +197,13 @@ def run(ctx):
     def true_value(name, xp):
         if name == "lin":
             return lin_coef @ xp + 0.75
-        return np.atleast_1d(fns[name].f(xp))
+        sgn, off = std[name]
+        return sgn * (np.atleast_1d(fns[name].f(xp)) - off)
 
     def true_jac_phys(name, xp):
         if name == "lin":
             return lin_coef.copy()
-        return np.atleast_2d(fns[name].df(xp))
+        return std[name][0] * np.atleast_2d(fns[name].df(xp))
 
     # the caller may reuse one array object for its requests, writing each new point into it in place
     reuse_buffer = t.flag(0.4, "caller_reuses_one_buffer")
@@ -260,7 +270,7 @@ def run(ctx):
             if (name, want_jac, key_exact) in requested:
                 repeated = True
             had_record = use_db and any(
-                (name if not want_jac else "@" + name) in rec for k2, rec in model.items() if same_key(k2, x_key)
+                (dbn[name] if not want_jac else "@" + dbn[name]) in rec for k2, rec in model.items() if same_key(k2, x_key)
             )
             # the (un)normalisation round trip can record "the same" point under keys one ulp apart:
             # with such twins the memoisation of this request is ambiguous and only faithfulness is checked
@@ -282,7 +292,7 @@ def run(ctx):
                         design_vector=x_arg, design_vector_is_normalized=given_norm,
                         output_functions=None if want_jac else [pfun[name]], jacobian_functions=[pfun[name]] if want_jac else None,
                     )
-                    val = jacs[name] if want_jac else outs[name]
+                    val = jacs[dbn[name]] if want_jac else outs[dbn[name]]
                     # evaluate_functions returns derivatives w.r.t. the coordinates of the preprocessed functions
                     coord_norm = normalize
                 elif want_jac:
@@ -309,7 +319,7 @@ def run(ctx):
                     ctx.violate("C01.faithful_value", sig + " raised", f"request {ops[-1]} raised {exc!r} without an injected fault; cfg={cfg}; ops={ops}")
                 # a failed request leaves no record for that (point, name)
                 _, rec = db_record([x_key]) if use_db else (None, None)
-                rname = "@" + name if want_jac else name
+                rname = "@" + dbn[name] if want_jac else dbn[name]
                 if rec is not None and rname in rec and not had_record:
                     ctx.violate("C01.no_record_after_failure", sig, f"failed request {ops[-1]} left a record {rname}={rec[rname]}; ops={ops}")
                 continue
@@ -340,7 +350,7 @@ def run(ctx):
                 if got.shape != exp.shape or not np.allclose(got, exp, rtol=1e-11, atol=1e-11):
                     ctx.violate("C01.faithful_value", sig, f"{ops[-1]} returned {got}, the original function gives {exp} at the physical point {xp}; cfg={cfg}")
                 rec_exp = exp
-                rname = name
+                rname = dbn[name]
             else:
                 ju = true_jac_phys(name, xp)
                 scale = np.where(normalizable, span, 1.0) if coord_norm else np.ones(dim)
@@ -355,7 +365,7 @@ def run(ctx):
                                 f"{ops[-1]} returned the Jacobian {got.tolist()}, expected {exp.tolist()} (physical Jacobian {ju.tolist()} scaled by {scale.tolist()}); cfg={cfg}")
                 # recorded physical Jacobian: zero where the bounds coincide and the functions are normalised
                 rec_exp = ju * np.where((span == 0) & normalizable & normalize, 0.0, 1.0)
-                rname = "@" + name
+                rname = "@" + dbn[name]
             # the database records exactly that, under the physical point
             if use_db and ambiguous:
                 for k2, rec in p.database.items():
@@ -387,7 +397,7 @@ def run(ctx):
             m = model.get(k)
             for rname, v in rec.items():
                 if m is None or rname not in m:
-                    if rname.lstrip("@") in ("f", "g", "lin"):
+                    if rname.lstrip("@") in set(dbn.values()):
                         ctx.violate("C01.recorded", sig + " unexpected-record", f"database holds {rname} at {k} that no successful request produced; ops={ops}")
     ctx.event("ops", canon(ops))
     ctx.case((canon(cfg), canon(ops)), nontrivial=repeated)
